@@ -8,13 +8,15 @@ function opcode sequence + argument lists).  A failing `transpile` is a failure 
 Workloads: (a) the single-module programs of the corpus, (b) strings of length 0-4 over the format-special
 alphabet in three roles (batched, bisected), (c) generated control-flow programs, (d) the opcode table,
 exhaustively: every instruction name x 4 argument forms as a one-instruction text function -> byte written by
-the transpiler == table index, arguments loaded == arguments written."""
+the transpiler == table index, arguments loaded == arguments written; (e) histories (several raw-text -> transpile
+rounds in ONE directory with sources of different sizes: stale output files) and (f) large files with multi-byte
+characters across every multiple of 4096 of the bytecode file — both as in C04."""
 import json
 import os
 
 from .. import core, corpus
 from ..models import twin
-from .c04 import cf_programs, sig_of
+from .c04 import cf_programs, random_histories, sig_of
 
 PROP = "C18"
 
@@ -30,6 +32,8 @@ def run(ctx):
     scov, chosen = twin.collect_strings(PROP, ctx, out)
     cov.update(scov)
     cov.update(twin.collect_opcodes(PROP, out))
+    cov.update(twin.collect_histories(PROP, out, random_histories(PROP, gen, ctx.n(15, 300))))
+    cov.update(twin.collect_large(PROP, out, ctx.quick))
     out.coverage.update(cov)
     out.coverage["avoidance_rules"] = (
         ["programs whose emitted instruction arguments contain a character of a class listed in known_findings.json "
@@ -73,6 +77,10 @@ def replay(path):
     with open(os.path.join(path, "case.json")) as f:
         case = json.load(f)
     w = case["witness"]
+    if "history" in w:
+        res = twin.replay_history(PROP, w)
+        print(json.dumps({k: v for k, v in res.items() if k != "witness"}, indent=1, default=str, ensure_ascii=False))
+        return 1 if (res["devs"] or res["status"] != "compared") else 0
     if "opcode_item" in w:
         res = twin.work_opcode(tuple(w["opcode_item"]))
         print(json.dumps(res, indent=1, default=str, ensure_ascii=False))
